@@ -318,6 +318,52 @@ pub fn loop_try_try_nests() -> Vec<Nest> {
     out
 }
 
+/// A loop whose body holds two statements in a row: a try-like construct around an inner loop (which
+/// finishes, or is left by break / continue), then a try-like construct with a leaf that leaves or
+/// crosses it - what the first statement leaves behind in the compiler's and the interpreter's loop and
+/// try bookkeeping is what the second one starts from.
+pub fn loop_with_pair_programs() -> Vec<Vec<Stmt>> {
+    let loops = [Cons::While2, Cons::For];
+    let trys = [Cons::TcBody, Cons::TcCatch, Cons::TfBody, Cons::TfFinally, Cons::TcfBody, Cons::TcfCatch, Cons::TcfFinally];
+    let inner_loops = [Cons::While1, Cons::For];
+    let first_leaves = [Leaf::Fall, Leaf::Break, Leaf::Continue];
+    let second_leaves = [Leaf::Fall, Leaf::ThrowStr, Leaf::Return, Leaf::Break, Leaf::Continue];
+    let mut out = Vec::new();
+    for l in loops {
+        for a in trys {
+            for il in inner_loops {
+                for fl in first_leaves {
+                    for b in trys {
+                        for sl in second_leaves {
+                            let first = Nest { cons: vec![(a, 0), (il, 0)], leaf: fl };
+                            let second = Nest { cons: vec![(b, 0)], leaf: sl };
+                            let mut body = first.build(10);
+                            body.extend(second.build(20));
+                            out.push(wrap(l, 1, 0, body));
+                        }
+                    }
+                }
+            }
+        }
+    }
+    out
+}
+
+pub fn loop_with_pair_cases() -> Vec<Case> {
+    loop_with_pair_programs()
+        .into_iter()
+        .map(|body| {
+            let mut prog = prelude();
+            let mut b = body;
+            b.push(st(StmtKind::Return(Some(s("end of main")))));
+            prog.push(fn_stmt(func("main_", &[], b)));
+            prog.push(st(StmtKind::Try(vec![print_stmt(call(var("main_"), vec![]))], Some(("e".into(), vec![print_stmt(var("e"))])), None)));
+            prog.push(p("after main"));
+            Case::new("loop_with_pair_of_try_statements", prog)
+        })
+        .collect()
+}
+
 /// A try statement in a loop whose finally block is left by continue / break on the first pass while an
 /// outcome (return, exception, exception from the catch block) is waiting, and which is entered again and
 /// completes normally on the later passes; then an unrelated try statement.  The abandoned outcome
@@ -412,6 +458,7 @@ pub fn cases_for_c04(thorough: bool) -> Vec<Case> {
         }
     }
     v.extend(reentered_after_abrupt_finally_exit());
+    v.extend(loop_with_pair_cases());
     v
 }
 
@@ -437,6 +484,7 @@ pub fn run(ctx: &Ctx) -> Report {
         })));
     }
     cases.push(Box::new(reentered_after_abrupt_finally_exit().into_iter()));
+    cases.push(Box::new(loop_with_pair_cases().into_iter()));
     if !thorough {
         cases.push(Box::new(loop_try_try_nests().into_iter().map(move |n| mk("nest_depth3_loop_try_try", vec![n]))));
     }
@@ -462,7 +510,7 @@ pub fn run(ctx: &Ctx) -> Report {
     mcheck::fill_report(
         &mut report,
         &stats,
-        "every nest of the constructs {block, try/catch, try/finally, try/catch/finally (focus in body, catch or finally), while x1/x2, for, function/method/closure call} x 2 fillers up to the depth bound, with every leaf action {fall through, throw of 4 value kinds, 6 failing built-ins (one per error class), callee throwing at depth 1-3, return, break, continue}, and every sequential pair of nests (quick tier: depth 2, pairs of depth-1 nests, and the depth-3 nests that put a loop around two try-like constructs), plus 30 programs in which a try statement inside a loop is entered again after its finally block was left by continue / break with an outcome waiting, run on the real interpreter and compared with M-eval's block trace and outcome. non-trivial = an exception reaches a handler, a finally block or the top level.",
+        "every nest of the constructs {block, try/catch, try/finally, try/catch/finally (focus in body, catch or finally), while x1/x2, for, function/method/closure call} x 2 fillers up to the depth bound, with every leaf action {fall through, throw of 4 value kinds, 6 failing built-ins (one per error class), callee throwing at depth 1-3, return, break, continue}, and every sequential pair of nests (quick tier: depth 2, pairs of depth-1 nests, and the depth-3 nests that put a loop around two try-like constructs), plus 2 940 programs whose loop body holds a try-like construct around an inner loop followed by a second try-like construct with a leaving leaf, plus 30 programs in which a try statement inside a loop is entered again after its finally block was left by continue / break with an outcome waiting, run on the real interpreter and compared with M-eval's block trace and outcome. non-trivial = an exception reaches a handler, a finally block or the top level.",
         json!({"nest_depth": if thorough { 3 } else { 2 }, "pairs": if thorough { "depth1 x depth2" } else { "depth1 x depth1" }, "constructs": CONS.len(), "leaves": LEAVES.len()}),
     );
     // trigger-free population reported separately
